@@ -220,3 +220,20 @@ def _default_nontrivial(t):
         if e.get("state", "None") != "None" or e.get("raised", "None") != "None":
             return True
     return False
+
+
+class Neighbour:
+    """a second, unrelated detector of the same class that lives next to the one under observation and is fed its own pseudo-random stream
+    (a fixed linear congruential sequence: no global random state is touched).  What ONE detector reports is a function of what IT was given."""
+
+    def __init__(self, det, feed, salt=0):
+        self.det, self.feed, self.x = det, feed, 12345 + 7919 * salt
+
+    def step(self):
+        self.x = (1103515245 * self.x + 12345) % (2 ** 31)
+        try:
+            self.feed(self.det, (self.x >> 12) / float(2 ** 19))          # a value in [0, 1)
+            if (self.x >> 8) % 89 == 0:
+                self.det.reset()
+        except Exception:  # noqa - the neighbour is not under observation
+            pass
